@@ -439,6 +439,7 @@ func (p Prop[C]) EvalFast(c C, hash uint64) *Failure {
 	x := &Ctx{}
 	f := Guard(p.ID+"-oracle", func() *Failure { return p.Check(c, x) })
 	if f != nil && rec.Tolerate(f) {
+		x.Label("excluded-known:" + f.Key)
 		f = nil
 	}
 	rec.Case(hash, x, func() interface{} { return map[string]interface{}{"variant": p.Variant, "case": c} })
